@@ -119,7 +119,10 @@ def _quote_check_str(check_str):
     """
     if not isinstance(check_str, str):
         check_str = str(policy._parser.parse_rule(check_str))
-    return check_str.replace('\\', '\\\\').replace('"', '\\"')
+    check_str = check_str.replace('\\', '\\\\').replace('"', '\\"')
+    # Control characters (a tab, say) must be escaped in both formats.
+    return ''.join('\\u%04x' % ord(c) if ord(c) < 0x20 else c
+                   for c in check_str)
 
 
 def _format_help_text(description):
